@@ -208,8 +208,30 @@ def bounded_parametrized():
     return pr
 
 
+def half_bounded_types():
+    """numeric fluents whose type has ONE bound only (lower or upper, int and real), with actions that can push each past its bound"""
+    from unified_planning.shortcuts import RealType
+    pr = Problem("half_bounded_types")
+    lo, hi, rl, done = Fluent("lo", IntType(0, None)), Fluent("hi", IntType(None, 5)), Fluent("rl", RealType(Fraction(0), None)), Fluent("done", BoolType())
+    pr.add_fluent(lo, default_initial_value=1)
+    pr.add_fluent(hi, default_initial_value=4)
+    pr.add_fluent(rl, default_initial_value=Fraction(1, 2))
+    pr.add_fluent(done, default_initial_value=False)
+    for nm, f, inc, amount in (("lo_down", lo, False, 1), ("hi_up", hi, True, 1), ("rl_down", rl, False, Fraction(1, 2)), ("lo_up", lo, True, 1)):
+        a = InstantaneousAction(nm)
+        (a.add_increase_effect if inc else a.add_decrease_effect)(f, amount)
+        pr.add_action(a)
+    fin = InstantaneousAction("finish")
+    fin.add_effect(done, True)
+    pr.add_action(fin)
+    pr.add_goal(done)
+    return pr
+
+
 def crafted_cases():
-    out = [("crafted:bounded_parametrized", (CK.BOUNDED_TYPES_REMOVING,), bounded_parametrized()),
+    out = [("crafted:half_bounded_types", (CK.BOUNDED_TYPES_REMOVING,), half_bounded_types()),
+           ("crafted:half_bounded_types+grounding", (CK.BOUNDED_TYPES_REMOVING, CK.GROUNDING), half_bounded_types()),
+           ("crafted:bounded_parametrized", (CK.BOUNDED_TYPES_REMOVING,), bounded_parametrized()),
            ("crafted:bounded_parametrized+grounding", (CK.BOUNDED_TYPES_REMOVING, CK.GROUNDING), bounded_parametrized()),
            ("crafted:static_default_true", (CK.GROUNDING,), static_default_true()),
            ("crafted:separator_names", (CK.GROUNDING,), separator_names()),
